@@ -52,6 +52,7 @@ type Action struct {
 type Step struct {
 	Abmf    Action `json:"abmf"`            // the credit-control (reservation) exchange
 	Reserve Action `json:"reserve"`         // the rating exchange that prices the reservation
+	Cost    Action `json:"cost"`            // the update's first rating exchange (tariff enquiry; in a settlement: the price enquiry)
 	GapMs   int    `json:"gapMs"`           // pause after this update
 	Final   bool   `json:"final,omitempty"` // the update carries a FINAL trigger: the rating group is settled (priced, then refund or final debit at the account server) instead of topped up
 }
@@ -91,6 +92,7 @@ type subPlan struct {
 	gotCCR    *cdt.AccountDebitRequest
 	held      map[string][]*hold // by peer: answers read by the client and not yet dispatched
 	staleRuns int                // held answers dispatched while a later request was waiting
+	costDone  map[int]bool       // updates whose first tariff enquiry has been seen
 }
 
 type holdKey struct{ code, hbh, e2e uint32 }
@@ -263,6 +265,15 @@ func startPeers(rfPort, abmfPort int, pemF, keyF string) error {
 			ex.value = uint64(100 + ex.k) // allowed units identify the exchange
 			if p.step < len(p.steps) {
 				ex.action = p.steps[p.step].Reserve
+			}
+		}
+		if ex.role == "cost" && p.step < len(p.steps) && !p.costDone[p.step] {
+			if p.costDone == nil {
+				p.costDone = map[int]bool{}
+			}
+			p.costDone[p.step] = true
+			if k := p.steps[p.step].Cost.Kind; k != "" {
+				ex.action = p.steps[p.step].Cost
 			}
 		}
 		p.nRating++
@@ -582,7 +593,12 @@ func runScript(sc Script) scriptResult {
 		}
 		delta := post.Reserved[1] - pre.Reserved[1]
 		if firstCost != nil {
-			delta += usedPerUpdate * firstCost.tariff
+			t := firstCost.tariff
+			if withheld(firstCost.action) {
+				t = 1 // without a tariff the CHF prices at unit cost 1
+				lateSeen = true
+			}
+			delta += usedPerUpdate * t
 		}
 		granted := int64(-1)
 		if o.rsp != nil {
@@ -677,6 +693,9 @@ func runScript(sc Script) scriptResult {
 	p.mu.Unlock()
 	for _, st := range sc.Steps {
 		r.labels = append(r.labels, "abmf:"+st.Abmf.Kind, "reserve:"+st.Reserve.Kind)
+		if st.Cost.Kind != "" && st.Cost.Kind != "prompt" {
+			r.labels = append(r.labels, "tariff-enquiry:"+st.Cost.Kind)
+		}
 	}
 	return r
 }
@@ -886,11 +905,24 @@ func genAction(t *rapid.T, n string) Action {
 	return Action{Kind: "prompt"}
 }
 
+// the tariff enquiry that opens an update: mostly prompt, sometimes slow, late or lost
+func genCostAction(t *rapid.T) Action {
+	switch rapid.SampledFrom([]string{"prompt", "prompt", "prompt", "prompt", "slow", "late", "drop"}).Draw(t, "cost") {
+	case "slow":
+		return Action{Kind: "slow", Ms: rapid.SampledFrom([]int{1000, 3000}).Draw(t, "costSlowMs")}
+	case "late":
+		return Action{Kind: "late", Ms: 6500}
+	case "drop":
+		return Action{Kind: "drop"}
+	}
+	return Action{Kind: "prompt"}
+}
+
 func genScript(t *rapid.T) Script {
 	var sc Script
 	n := rapid.IntRange(2, 3).Draw(t, "nSteps")
 	for i := 0; i < n; i++ {
-		st := Step{Abmf: genAction(t, "abmf"), Reserve: Action{Kind: "prompt"}, GapMs: rapid.SampledFrom([]int{0, 0, 600, 2000}).Draw(t, "gap"), Final: rapid.IntRange(0, 3).Draw(t, "final") == 0}
+		st := Step{Abmf: genAction(t, "abmf"), Reserve: Action{Kind: "prompt"}, Cost: genCostAction(t), GapMs: rapid.SampledFrom([]int{0, 0, 600, 2000}).Draw(t, "gap"), Final: rapid.IntRange(0, 3).Draw(t, "final") == 0}
 		if rapid.IntRange(0, 3).Draw(t, "faultRating") == 0 {
 			st.Reserve = genAction(t, "reserve")
 		}
@@ -917,6 +949,9 @@ func genBatch(t *rapid.T) Batch {
 	b.Scripts = append(b.Scripts,
 		Script{Steps: []Step{{Abmf: Action{Kind: "prompt"}, Reserve: Action{Kind: "prompt"}}, {Abmf: Action{Kind: "late", Ms: 6500}, Reserve: Action{Kind: "prompt"}, Final: true}, {Abmf: Action{Kind: "prompt"}, Reserve: Action{Kind: "prompt"}}}},
 		Script{Steps: []Step{{Abmf: Action{Kind: "prompt"}, Reserve: Action{Kind: "dupfail"}}, {Abmf: Action{Kind: "dupfail"}, Reserve: Action{Kind: "prompt"}}, {Abmf: Action{Kind: "prompt"}, Reserve: Action{Kind: "prompt"}}}})
+	// the tariff enquiry that opens the update is lost; the account peer then answers at once
+	b.Scripts = append(b.Scripts,
+		Script{Steps: []Step{{Abmf: Action{Kind: "prompt"}, Reserve: Action{Kind: "prompt"}, Cost: Action{Kind: "drop"}}, {Abmf: Action{Kind: "prompt"}, Reserve: Action{Kind: "prompt"}, Cost: Action{Kind: "slow", Ms: 3000}}}})
 	n := h.Scale(12, 20)
 	for i := 0; i < n; i++ {
 		b.Scripts = append(b.Scripts, genScript(t))
